@@ -34,14 +34,15 @@ type cacheEv struct {
 }
 
 type cacheDriver struct {
-	w    *traceWriter
-	in   *interner
-	c    *corpusT
-	mdb  *database.MonitoredDatabase
-	tr   int
-	ver  int
-	ttl  time.Duration
-	base []database.Command
+	w     *traceWriter
+	in    *interner
+	c     *corpusT
+	mdb   *database.MonitoredDatabase
+	tr    int
+	ver   int
+	ttl   time.Duration
+	base  []database.Command
+	dirty bool
 }
 
 func optKey(o database.SearchOptions) string {
@@ -57,18 +58,21 @@ func optKey(o database.SearchOptions) string {
 func (d *cacheDriver) reset(corpus string, capacity int, ttlTicks int) {
 	d.tr++
 	src := getCorpus(corpus)
-	// a private copy of the database: update-database mutates it
-	db, err := database.LoadDatabase(src.file)
-	if err != nil {
-		fatal("reload %s: %v", src.file, err)
+	// a private copy of the database (update-database mutates it); re-used by the next trace unless it was replaced
+	if d.c == nil || d.dirty || d.c.name != corpus {
+		db, err := database.LoadDatabase(src.file)
+		if err != nil {
+			fatal("reload %s: %v", src.file, err)
+		}
+		d.c = wrapCorpus(corpus, db, src.cmds, src.file)
+		d.base = append([]database.Command(nil), db.Commands...)
+		d.dirty = false
 	}
-	d.c = wrapCorpus(corpus, db, src.cmds, src.file)
-	d.base = append([]database.Command(nil), db.Commands...)
 	d.ttl = 0
 	if ttlTicks > 0 {
 		d.ttl = time.Duration(ttlTicks)*time.Hour + 30*time.Minute
 	}
-	d.mdb = database.VerifNewMonitoredDatabase(db, capacity, d.ttl)
+	d.mdb = database.VerifNewMonitoredDatabase(d.c.db, capacity, d.ttl)
 	d.ver = 1
 	d.w.emit(&cacheEv{Op: "reset", Tr: d.tr})
 }
@@ -132,6 +136,7 @@ func (d *cacheDriver) update(version int) {
 		}
 	}
 	d.mdb.UpdateDatabase(cmds)
+	d.dirty = true
 	d.ver = version
 	d.reindex()
 	d.w.emit(&cacheEv{Op: "update", N: version, Tr: d.tr})
